@@ -83,6 +83,13 @@ class NameStream(Stream):
                 for p in rng.sample(pins, rng.randint(1, len(pins))):
                     q = [rng.choice(BASES + ["n0", "n1"]), rng.choice(MODES)]
                     ren.append([p, q])
+            if len(pins) >= 2 and rng.random() < 0.3:
+                # a renumbering whose new names overlap the old ones: p0 -> p1, p1 -> p2, ..., listed in that order
+                k = rng.randint(2, len(pins))
+                chain = pins[:k]
+                ren = [[chain[j], chain[j + 1]] for j in range(k - 1)] + [[chain[-1], ["n9", rng.choice(MODES)]]]
+                if rng.random() < 0.3:
+                    ren = [[chain[0], chain[1]], [chain[1], chain[0]]]      # a swap
             qs = sorted({(b if m is None else f"{b}_{m}") for b, m in pins + [r[1] for r in ren]} | {"zz"})
             out.append({"pins": pins, "ren": ren, "queries": qs, "via": rng.choice(["model", "structure"])})
         return out
@@ -96,6 +103,11 @@ class NameStream(Stream):
                 m.pin_mapping({Pin(*a): Pin(*b) for a, b in d["ren"]})
             if len(m.pin_dic) != len(pins):
                 raise ValueError("renaming merged two pins")
+            rmap = {tuple(a): tuple(b) for a, b in d["ren"]}
+            for i, (b0, m0) in enumerate(d["pins"]):
+                nb, nm = rmap.get((b0, m0), (b0, m0))
+                if m.pin_dic.get(Pin(nb, nm)) != i:
+                    raise ValueError("a renamed pin no longer addresses its own port")
             table = m.pin if d["via"] == "model" else {k: v[1] for k, v in Structure(model=m).pin.items()}
             for q in d["queries"]:
                 p = table.get(q)
